@@ -240,8 +240,10 @@ func (c *client) Close() error {
 				return fmt.Errorf("client with step '%s' failed to write client done message with error: %w",
 					c.getRunningStepIDs(), err)
 			} else {
-				panic(fmt.Errorf("potential deadlock after client with step '%s' failed to write client done message with error: %w",
-					c.getRunningStepIDs(), err))
+				// The read or write loops are still blocked on the dead connection. Report it; do not take the
+				// whole engine down with a panic.
+				return fmt.Errorf("client with step '%s' failed to write client done message and its loops did not "+
+					"stop within the timeout (potential deadlock): %w", c.getRunningStepIDs(), err)
 			}
 		}
 	}
